@@ -183,18 +183,20 @@ theorem loadType_elems (s : AnState) (t : Nat) : (loadType s t).elems = s.elems 
   · rfl
   · split <;> rfl
 
-theorem elemLook_elemPut (k k' : Nat × Nat) (v : Bytes) (l : List ((Nat × Nat) × Bytes)) :
-    elemLook k' (elemPut k v l) = if k' = k then some v else elemLook k' l := by
+theorem tagOfType_ne_null {t tag : Nat} (h : tagOfType t = some tag) : tag ≠ DFTAG_NULL := by
+  unfold tagOfType at h
+  repeat' split at h
+  all_goals first
+    | (simp only [Option.some.injEq] at h; subst h; decide)
+    | simp at h
+
+theorem elemLook_elemSet (k k' : Nat × Nat) (v : Bytes) (l : List ((Nat × Nat) × Bytes)) :
+    elemLook k' (elemSet k v l) = if k' = k then (elemLook k l).map (fun _ => v) else elemLook k' l := by
   induction l with
-  | nil =>
-    simp only [elemPut, elemLook]
-    by_cases h : k = k'
-    · simp [h]
-    · have : ¬ k' = k := fun e => h e.symm
-      simp [h, this]
+  | nil => simp [elemSet, elemLook]
   | cons a t ih =>
     obtain ⟨ka, va⟩ := a
-    simp only [elemPut]
+    simp only [elemSet]
     by_cases h : ka = k
     · subst h
       simp only [if_true, elemLook]
@@ -207,6 +209,45 @@ theorem elemLook_elemPut (k k' : Nat × Nat) (v : Bytes) (l : List ((Nat × Nat)
       · have : ¬ k' = k := fun e => h (h2.trans e)
         simp [h2, this]
       · simp [h2]
+
+theorem elemLook_elemFill (k k' : Nat × Nat) (v : Bytes) (l : List ((Nat × Nat) × Bytes))
+    (hk' : k'.1 ≠ DFTAG_NULL) (hn : elemLook k l = none) :
+    elemLook k' (elemFill k v l) = if k' = k then some v else elemLook k' l := by
+  induction l with
+  | nil =>
+    simp only [elemFill, elemLook]
+    by_cases h : k = k'
+    · simp [h]
+    · have : ¬ k' = k := fun e => h e.symm
+      simp [h, this]
+  | cons a t ih =>
+    obtain ⟨ka, va⟩ := a
+    simp only [elemLook] at hn
+    have hka : ¬ ka = k := by
+      intro e; simp [e] at hn
+    simp only [hka, if_false] at hn
+    simp only [elemFill]
+    by_cases hz : ka.1 = DFTAG_NULL
+    · have hne : ¬ ka = k' := fun e => hk' (e ▸ hz)
+      simp only [hz, if_true, elemLook, hne, if_false]
+      by_cases h : k = k'
+      · simp [h]
+      · have : ¬ k' = k := fun e => h e.symm
+        simp [h, this]
+    · simp only [hz, if_false, elemLook, ih hn]
+      by_cases h2 : ka = k'
+      · have : ¬ k' = k := fun e => hka (h2.trans e)
+        simp [h2, this]
+      · simp [h2]
+
+/-- what a lookup finds after `Hputelement`: for every real tag/ref (a DD with tag `DFTAG_NULL` is a free DD, not an
+    element) -/
+theorem elemLook_elemPut (k k' : Nat × Nat) (v : Bytes) (l : List ((Nat × Nat) × Bytes)) (hk' : k'.1 ≠ DFTAG_NULL) :
+    elemLook k' (elemPut k v l) = if k' = k then some v else elemLook k' l := by
+  unfold elemPut
+  cases h : elemLook k l with
+  | none => simpa [h] using elemLook_elemFill k k' v l hk' h
+  | some b => simp [elemLook_elemSet, h]
 
 /-! sessions: what `ANIcreate_ann_tree` builds from the file when the type's tree is not there -/
 
@@ -223,9 +264,9 @@ def fileEntries (elems : List ((Nat × Nat) × Bytes)) (t : Nat) : List (Nat × 
   | none => []
   | some tag => (elems.filter (fun p => p.1.1 == tag)).filterMap (entryOf t tag)
 
-/-- a well-formed DD list: no tag/ref twice, refs are 16-bit -/
+/-- a well-formed DD list: no tag/ref twice (free DDs, tag `DFTAG_NULL`, are not elements), refs are 16-bit -/
 def FileOk (elems : List ((Nat × Nat) × Bytes)) : Prop :=
-  elems.Pairwise (fun p q => p.1 ≠ q.1) ∧ ∀ p ∈ elems, p.1.2 < 65536
+  elems.Pairwise (fun p q => p.1.1 ≠ DFTAG_NULL → p.1 ≠ q.1) ∧ ∀ p ∈ elems, p.1.2 < 65536
 
 theorem treeIns_perm {key : Nat} {e : Entry} {tr tr' : List (Nat × Entry)} (h : treeIns key e tr = some tr') :
     tr'.Perm ((key, e) :: tr) := by
@@ -323,12 +364,13 @@ theorem loadType_perm (s : AnState) (t : Nat) (ht : t < 4) (hnl : s.loaded.conta
   simp only [hnl, htag, Bool.false_eq_true, if_false, and_self, and_true]
   apply loadFold_perm t tag (by omega)
   · intro p hp; exact hok.2 p (List.mem_filter.mp hp).1
-  · have h1 : (s.elems.filter (fun p => p.1.1 == tag)).Pairwise (fun p q => p.1 ≠ q.1) := hok.1.sublist List.filter_sublist
+  · have h1 : (s.elems.filter (fun p => p.1.1 == tag)).Pairwise (fun p q => p.1.1 ≠ DFTAG_NULL → p.1 ≠ q.1) :=
+      hok.1.sublist List.filter_sublist
     refine h1.imp_of_mem ?_
     intro a b ha hb hab heq
     have e1 : a.1.1 = tag := by simpa using (List.mem_filter.mp ha).2
     have e2 : b.1.1 = tag := by simpa using (List.mem_filter.mp hb).2
-    exact hab (Prod.ext (e1.trans e2.symm) heq)
+    exact hab (e1 ▸ tagOfType_ne_null htag) (Prod.ext (e1.trans e2.symm) heq)
   · intro p hp hmem
     exact hno _ hmem (key2type_create t p.1.2 (by omega) (hok.2 p (List.mem_filter.mp hp).1))
 
@@ -352,5 +394,300 @@ theorem load_next (s : AnState) (t : Nat) (ht : t < 4) (L : List Nat) (hl : s.lo
     exact hF x (hp.mem_iff.mp hx)
   obtain ⟨a, b, c⟩ := loadType_perm s t ht (hl ▸ hL) hok hno
   exact ⟨a.trans (hp.append_right _), hl ▸ b, c⟩
+
+/-! the file-annotation walk of the single-file interface (`DFANgetfidlen`/`DFANgetfid`, `DFANgetfdslen`/`DFANgetfds`) -/
+
+/-- the documented loop over the file labels / file descriptions of a file,
+    `for (first = 1; DFANgetfidlen(f, first) != FAIL; first = 0) DFANgetfid(f, buf, maxlen, first);`
+    run for at most `fuel` rounds: the (length, text) pairs it reports -/
+def dfWalk (t maxlen : Nat) : Nat → AnState → Nat → List (Int × Out)
+  | 0, _, _ => []
+  | fuel + 1, s, first =>
+    match step s (.dfflen t first) with
+    | (s1, .int l) =>
+      (l, (step s1 (.dffget t first maxlen)).2) :: dfWalk t maxlen fuel (step s1 (.dffget t first maxlen)).1 0
+    | _ => []
+
+theorem setNext_elems (s : AnState) (t r : Nat) (d : Bool) : (setNext s t r d).elems = s.elems := by
+  unfold setNext; split <;> rfl
+
+theorem nextOf_setNext (s : AnState) (t r : Nat) (d : Bool) : nextOf (setNext s t r d) t = r := by
+  by_cases h : t = AN_FILE_LABEL <;> simp [nextOf, setNext, h]
+
+theorem doneOf_setNext (s : AnState) (t r : Nat) (d : Bool) : doneOf (setNext s t r d) t = d := by
+  by_cases h : t = AN_FILE_LABEL <;> simp [doneOf, setNext, h]
+
+/-- no tag/ref twice in the DD list (free DDs are not elements) -/
+def Dist (E : List ((Nat × Nat) × Bytes)) : Prop := E.Pairwise (fun p q => p.1.1 ≠ DFTAG_NULL → p.1 ≠ q.1)
+
+theorem elemLook_of_mem {E : List ((Nat × Nat) × Bytes)} (D : Dist E) {p : (Nat × Nat) × Bytes} (hp : p ∈ E)
+    (hn : p.1.1 ≠ DFTAG_NULL) : elemLook p.1 E = some p.2 := by
+  induction E with
+  | nil => simp at hp
+  | cons a E' ih =>
+    obtain ⟨ka, va⟩ := a
+    obtain ⟨ha, D'⟩ := List.pairwise_cons.mp D
+    simp only [elemLook]
+    rcases List.mem_cons.mp hp with rfl | hp'
+    · simp
+    · by_cases h : ka = p.1
+      · exact absurd h (ha p hp' (by simpa [h] using hn))
+      · simp only [h, if_false]; exact ih D' hp'
+
+theorem startRead_wild (T : Nat) (E : List ((Nat × Nat) × Bytes)) :
+    startRead T DFREF_WILDCARD E = (E.filter (fun p => p.1.1 == T))[0]? := by
+  simp [startRead, ← List.head?_eq_getElem?, List.head?_filter]
+
+theorem startRead_ref {E : List ((Nat × Nat) × Bytes)} (D : Dist E) {p : (Nat × Nat) × Bytes} (hp : p ∈ E) {T : Nat}
+    (hT : p.1.1 = T) (hn : T ≠ DFTAG_NULL) (hr : p.1.2 ≠ 0) : startRead T p.1.2 E = some p := by
+  have h0 : ¬ p.1.2 = DFREF_WILDCARD := hr
+  have hk : (T, p.1.2) = p.1 := by rw [← hT]
+  simp only [startRead, h0, if_false, hk, elemLook_of_mem D hp (hT ▸ hn), Option.map_some]
+
+theorem afterRef_filter (T : Nat) (hn : T ≠ DFTAG_NULL) : ∀ (E : List ((Nat × Nat) × Bytes)), Dist E →
+    ∀ (i : Nat) (p : (Nat × Nat) × Bytes), (E.filter (fun p => p.1.1 == T))[i]? = some p →
+    afterRef T p.1.2 E = ((E.filter (fun p => p.1.1 == T))[i + 1]?).map (·.1.2) := by
+  intro E
+  induction E with
+  | nil => intro _ i p h; simp at h
+  | cons a E' ih =>
+    intro D i p h
+    obtain ⟨ha, D'⟩ := List.pairwise_cons.mp D
+    by_cases hta : a.1.1 = T
+    · have hf : (a :: E').filter (fun p => p.1.1 == T) = a :: E'.filter (fun p => p.1.1 == T) := by simp [hta]
+      rw [hf] at h ⊢
+      cases i with
+      | zero =>
+        simp only [List.getElem?_cons_zero, Option.some.injEq] at h
+        subst h
+        have hc : a.1 = (T, a.1.2) := by rw [← hta]
+        simp only [afterRef]
+        rw [if_pos hc]
+        simp only [List.getElem?_cons_succ, ← List.head?_eq_getElem?, List.head?_filter]
+      | succ i' =>
+        simp only [List.getElem?_cons_succ] at h ⊢
+        have hm : p ∈ E'.filter (fun p => p.1.1 == T) := List.mem_of_getElem? h
+        have hpT : p.1.1 = T := by simpa using (List.mem_filter.mp hm).2
+        have hne : ¬ a.1 = (T, p.1.2) := by
+          have := ha p (List.mem_filter.mp hm).1 (hta ▸ hn)
+          rwa [← hpT]
+        simp only [afterRef, hne, if_false]
+        exact ih D' i' p h
+    · have hf : (a :: E').filter (fun p => p.1.1 == T) = E'.filter (fun p => p.1.1 == T) := by simp [hta]
+      rw [hf] at h ⊢
+      have hne : ¬ a.1 = (T, p.1.2) := fun e => hta (by rw [e])
+      simp only [afterRef, hne, if_false]
+      exact ih D' i p h
+
+/-- the walk may go on: it is started (again), or it is not marked done -/
+def Going (s : AnState) (t first : Nat) : Prop := first = 1 ∨ doneOf s t = false
+
+theorem step_dfflen_some {s : AnState} {t T first : Nat} (hT : tagOfType t = some T) (hd : isDataType t = false)
+    (hg : Going s t first) {p : (Nat × Nat) × Bytes}
+    (h : startRead T (if first = 1 then DFREF_WILDCARD else nextOf s t) s.elems = some p) :
+    step s (.dfflen t first) = (setNext s t p.1.2 false, .int p.2.length) := by
+  have hg' : ¬ (first ≠ 1 ∧ doneOf s t = true) := by
+    rcases hg with hg | hg
+    · exact fun c => c.1 hg
+    · exact fun c => by simp [hg] at c
+  simp [step, hT, hd, h, hg']
+
+theorem step_dfflen_done {s : AnState} {t T first : Nat} (hT : tagOfType t = some T) (hd : isDataType t = false)
+    (h1 : first ≠ 1) (h2 : doneOf s t = true) : step s (.dfflen t first) = (s, .fail) := by
+  simp [step, hT, hd, h1, h2]
+
+theorem step_dfflen_none {s : AnState} {t T first : Nat} (hT : tagOfType t = some T) (hd : isDataType t = false)
+    (h : startRead T (if first = 1 then DFREF_WILDCARD else nextOf s t) s.elems = none) :
+    step s (.dfflen t first) = (s, .fail) := by
+  by_cases hg : first ≠ 1 ∧ doneOf s t = true
+  · simp [step, hT, hd, hg]
+  · simp [step, hT, hd, h, hg]
+
+theorem step_dffget_some {s : AnState} {t T first maxlen : Nat} (hT : tagOfType t = some T) (hd : isDataType t = false)
+    (hg : Going s t first) {p : (Nat × Nat) × Bytes}
+    (h : startRead T (if first = 1 then DFREF_WILDCARD else nextOf s t) s.elems = some p) :
+    step s (.dffget t first maxlen) =
+      (match afterRef T p.1.2 s.elems with
+       | some r => setNext s t r false
+       | none => setNext s t ((p.1.2 + 1) % 65536) true, .bytes (clipF p.2 maxlen)) := by
+  have hg' : ¬ (first ≠ 1 ∧ doneOf s t = true) := by
+    rcases hg with hg | hg
+    · exact fun c => c.1 hg
+    · exact fun c => by simp [hg] at c
+  simp only [step, hT, hd, h, hg', if_false, Bool.false_eq_true]
+  cases afterRef T p.1.2 s.elems <;> rfl
+
+/-- what one round of the walk reports for an annotation -/
+def walkItem (maxlen : Nat) (p : (Nat × Nat) × Bytes) : Int × Out := ((p.2.length : Int), .bytes (clipF p.2 maxlen))
+
+/-- the walk from the `i`-th file annotation (DD order) on: it reports that one and all behind it, each once, and ends -/
+theorem dfWalk_from (t T maxlen : Nat) (hT : tagOfType t = some T) (hd : isDataType t = false)
+    (E : List ((Nat × Nat) × Bytes)) (D : Dist E) (hpos : ∀ p ∈ E, p.1.1 = T → p.1.2 ≠ 0) :
+    ∀ (k i : Nat) (s : AnState) (first fuel : Nat), s.elems = E → i + k = (E.filter (fun p => p.1.1 == T)).length → k < fuel →
+      (first = 1 → i = 0) →
+      (first ≠ 1 → (k = 0 → doneOf s t = true) ∧
+        ∀ p, (E.filter (fun p => p.1.1 == T))[i]? = some p → doneOf s t = false ∧ nextOf s t = p.1.2) →
+      dfWalk t maxlen fuel s first = ((E.filter (fun p => p.1.1 == T)).drop i).map (walkItem maxlen) := by
+  have hn : T ≠ DFTAG_NULL := tagOfType_ne_null hT
+  intro k
+  induction k with
+  | zero =>
+    intro i s first fuel hs hik hf h1 h0
+    obtain ⟨fuel', rfl⟩ : ∃ f', fuel = f' + 1 := ⟨fuel - 1, by omega⟩
+    have hdrop : (E.filter (fun p => p.1.1 == T)).drop i = [] := List.drop_eq_nil_iff.mpr (by omega)
+    have hfail : step s (.dfflen t first) = (s, .fail) := by
+      by_cases hf1 : first = 1
+      · have hi := h1 hf1
+        apply step_dfflen_none hT hd
+        simp only [hf1, if_true, hs, startRead_wild]
+        exact List.getElem?_eq_none_iff.mpr (by omega)
+      · exact step_dfflen_done hT hd hf1 ((h0 hf1).1 rfl)
+    simp only [dfWalk, hfail, hdrop, List.map_nil]
+  | succ k ih =>
+    intro i s first fuel hs hik hf h1 h0
+    obtain ⟨fuel', rfl⟩ : ∃ f', fuel = f' + 1 := ⟨fuel - 1, by omega⟩
+    have hi : i < (E.filter (fun p => p.1.1 == T)).length := by omega
+    obtain ⟨p, hp⟩ : ∃ p, (E.filter (fun p => p.1.1 == T))[i]? = some p := ⟨_, List.getElem?_eq_getElem hi⟩
+    have hpm : p ∈ E.filter (fun p => p.1.1 == T) := List.mem_of_getElem? hp
+    have hpE : p ∈ E := (List.mem_filter.mp hpm).1
+    have hpT : p.1.1 = T := by simpa using (List.mem_filter.mp hpm).2
+    -- the lookup of both calls of the round finds `p`
+    have hlook : ∀ s' : AnState, s'.elems = E → (first ≠ 1 → nextOf s' t = p.1.2) →
+        startRead T (if first = 1 then DFREF_WILDCARD else nextOf s' t) s'.elems = some p := by
+      intro s' hs' hnx
+      by_cases hf1 : first = 1
+      · have hi0 := h1 hf1
+        subst hi0
+        simp only [hf1, if_true, hs', startRead_wild, hp]
+      · simp only [hf1, if_false, hs', hnx hf1]
+        exact startRead_ref D hpE hpT hn (hpos p hpE hpT)
+    have hg1 : Going s t first := by
+      by_cases hf1 : first = 1
+      · exact Or.inl hf1
+      · exact Or.inr ((h0 hf1).2 p hp).1
+    have hl1 := hlook s hs (fun hf1 => ((h0 hf1).2 p hp).2)
+    have hs1 : (setNext s t p.1.2 false).elems = E := by rw [setNext_elems, hs]
+    have hg2 : Going (setNext s t p.1.2 false) t first := Or.inr (doneOf_setNext s t p.1.2 false)
+    have hl2 := hlook (setNext s t p.1.2 false) hs1 (fun _ => nextOf_setNext s t p.1.2 false)
+    have hdrop : (E.filter (fun p => p.1.1 == T)).drop i = p :: (E.filter (fun p => p.1.1 == T)).drop (i + 1) := by
+      obtain ⟨h, rfl⟩ := List.getElem?_eq_some_iff.mp hp
+      exact List.drop_eq_getElem_cons h
+    have hafter := afterRef_filter T hn E D i p hp
+    simp only [dfWalk, step_dfflen_some hT hd hg1 hl1, step_dffget_some hT hd hg2 hl2, hdrop, List.map_cons, walkItem, hs1]
+    congr 1
+    rw [hafter]
+    apply ih (i + 1) _ 0 fuel'
+    · cases (E.filter (fun p => p.1.1 == T))[i + 1]? <;> simp only [Option.map] <;> rw [setNext_elems, hs1]
+    · omega
+    · omega
+    · intro h; exact absurd h (by decide)
+    · intro _
+      constructor
+      · intro hk0
+        have hnone : (E.filter (fun p => p.1.1 == T))[i + 1]? = none := List.getElem?_eq_none_iff.mpr (by omega)
+        simp only [hnone, Option.map_none, doneOf_setNext]
+      · intro q hq
+        simp only [hq, Option.map_some, doneOf_setNext, nextOf_setNext, and_self]
+
+theorem setNext_tree (s : AnState) (t r : Nat) (d : Bool) : (setNext s t r d).tree = s.tree := by
+  unfold setNext; split <;> rfl
+
+/-! deletion (`Hdeldd`) -/
+
+theorem elemLook_none_of_forall {k : Nat × Nat} {l : List ((Nat × Nat) × Bytes)} (h : ∀ q ∈ l, q.1 ≠ k) : elemLook k l = none := by
+  induction l with
+  | nil => rfl
+  | cons a t ih =>
+    obtain ⟨ka, va⟩ := a
+    have h1 : ¬ ka = k := h (ka, va) List.mem_cons_self
+    simp only [elemLook, h1, if_false]
+    exact ih (fun q hq => h q (List.mem_cons_of_mem _ hq))
+
+/-- after `Hdeldd` the tag/ref is gone and every other element is where and what it was -/
+theorem elemLook_elemDel (k k' : Nat × Nat) (l : List ((Nat × Nat) × Bytes)) (D : Dist l) (hk : k.1 ≠ DFTAG_NULL)
+    (hk' : k'.1 ≠ DFTAG_NULL) : elemLook k' (elemDel k l) = if k' = k then none else elemLook k' l := by
+  induction l with
+  | nil => simp [elemDel, elemLook]
+  | cons a t ih =>
+    obtain ⟨ka, va⟩ := a
+    obtain ⟨ha, D'⟩ := List.pairwise_cons.mp D
+    simp only [elemDel]
+    by_cases h : ka = k
+    · subst h
+      have hne : ¬ (DFTAG_NULL, 0) = k' := fun e => hk' (by rw [← e])
+      simp only [if_true, elemLook, hne, if_false]
+      by_cases h2 : ka = k'
+      · subst h2
+        simp only [if_true]
+        exact elemLook_none_of_forall (fun q hq e => ha q hq hk e.symm)
+      · have : ¬ k' = ka := fun e => h2 e.symm
+        simp [h2, this]
+    · simp only [h, if_false, elemLook, ih D']
+      by_cases h2 : ka = k'
+      · have : ¬ k' = k := fun e => h (h2.trans e)
+        simp [h2, this]
+      · simp [h2]
+
+theorem mem_elemDel {k : Nat × Nat} {l : List ((Nat × Nat) × Bytes)} {q : (Nat × Nat) × Bytes} (h : q ∈ elemDel k l) :
+    q ∈ l ∨ q = ((DFTAG_NULL, 0), []) := by
+  induction l with
+  | nil => simp [elemDel] at h
+  | cons a t ih =>
+    obtain ⟨ka, va⟩ := a
+    simp only [elemDel] at h
+    split at h
+    · rcases List.mem_cons.mp h with h | h
+      · exact Or.inr h
+      · exact Or.inl (List.mem_cons_of_mem _ h)
+    · rcases List.mem_cons.mp h with h | h
+      · exact Or.inl (h ▸ List.mem_cons_self)
+      · rcases ih h with h | h
+        · exact Or.inl (List.mem_cons_of_mem _ h)
+        · exact Or.inr h
+
+theorem dist_elemDel (k : Nat × Nat) {l : List ((Nat × Nat) × Bytes)} (D : Dist l) : Dist (elemDel k l) := by
+  induction l with
+  | nil => simp [elemDel, Dist]
+  | cons a t ih =>
+    obtain ⟨ka, va⟩ := a
+    obtain ⟨ha, D'⟩ := List.pairwise_cons.mp D
+    simp only [elemDel]
+    split
+    · exact List.pairwise_cons.mpr ⟨fun q _ hq => absurd rfl hq, D'⟩
+    · refine List.pairwise_cons.mpr ⟨fun q hq hn => ?_, ih D'⟩
+      rcases mem_elemDel hq with hq | rfl
+      · exact ha q hq hn
+      · exact fun e => hn (by rw [e])
+
+theorem fileOk_elemDel (k : Nat × Nat) {l : List ((Nat × Nat) × Bytes)} (hok : FileOk l) : FileOk (elemDel k l) := by
+  refine ⟨dist_elemDel k hok.1, fun q hq => ?_⟩
+  rcases mem_elemDel hq with hq | rfl
+  · exact hok.2 q hq
+  · decide
+
+/-- the elements of a tag after `Hdeldd`: the same, in the same DD order, without the deleted one -/
+theorem filter_elemDel (k : Nat × Nat) (l : List ((Nat × Nat) × Bytes)) (D : Dist l) (hk : k.1 ≠ DFTAG_NULL) (T : Nat)
+    (hT : T ≠ DFTAG_NULL) :
+    (elemDel k l).filter (fun p => p.1.1 == T) = (l.filter (fun p => p.1.1 == T)).filter (fun p => p.1 != k) := by
+  induction l with
+  | nil => simp [elemDel]
+  | cons a t ih =>
+    obtain ⟨ka, va⟩ := a
+    obtain ⟨ha, D'⟩ := List.pairwise_cons.mp D
+    simp only [elemDel]
+    by_cases h : ka = k
+    · subst h
+      have hnt : ¬ DFTAG_NULL = T := fun e => hT e.symm
+      have hrest : (t.filter (fun p => p.1.1 == T)).filter (fun p => p.1 != ka) = t.filter (fun p => p.1.1 == T) :=
+        List.filter_eq_self.mpr (fun q hq => by
+          have := ha q (List.mem_filter.mp hq).1 hk
+          simpa using fun e => this e.symm)
+      by_cases hkt : ka.1 = T
+      · simp [hnt, hkt, hrest]
+      · simp [hnt, hkt, hrest]
+    · have ih' := ih D'
+      by_cases hkt : ka.1 = T
+      · simp [h, hkt, ih']
+      · simp [h, hkt, ih']
 
 end H4.Annot
